@@ -109,6 +109,8 @@ class Gen(Lst):
             return None
         it = self._it
         import threading
+        if self._thread is not None and threading.current_thread() is self._thread:
+            raise Undecided("generator already executing")
         if self._thread is None:
             fi = self._fn.fi
             self._state = (it.depth + 1, list(it.fn_stack) + [fi], it.ctx, list(it.__dict__.get("_cm_stack", [])))
